@@ -48,7 +48,7 @@ EnvTick ==
   /\ Hist
 \* a service start: remember what was waiting
 SelRec == [idle |-> wasIdle, t |-> now, id |-> srv'[1].id, f |-> srv'[1].f, c |-> srv'[1].c, st |-> srv'[1].st, at |-> srv'[1].at,
-           wait |-> {[f |-> pool'[j].f, c |-> pool'[j].c, st |-> pool'[j].st, at |-> pool'[j].at] : j \in 1..Len(pool')}]
+           wait |-> {[id |-> pool'[j].id, f |-> pool'[j].f, c |-> pool'[j].c, st |-> pool'[j].st, at |-> pool'[j].at] : j \in 1..Len(pool')}]
 DoSelect == /\ (Static => Closed) /\ (Select \/ Serve)
             /\ IF srv' # <<>> /\ srv = <<>> THEN sellog' = Append(sellog, SelRec) /\ wasIdle' = FALSE
                                           ELSE UNCHANGED <<sellog, wasIdle>>
@@ -91,7 +91,7 @@ StrictAtStart == cfg.policy = "SP" =>
 (* ---------------- C14 ---------------- *)
 StampOrder == cfg.policy \in {"WFQ", "VC"} =>
   \A k \in 1..Len(sellog) : \A p \in sellog[k].wait :
-     sellog[k].st < p.st \/ (sellog[k].st = p.st /\ sellog[k].at <= p.at)
+     sellog[k].st < p.st \/ (sellog[k].st = p.st /\ sellog[k].id < p.id)
 \* completed bytes per class
 RECURSIVE SentUpTo(_, _)
 SentUpTo(k, n) == IF n = 0 THEN 0 ELSE (IF deplog[n].c = k THEN deplog[n].sz ELSE 0) + SentUpTo(k, n - 1)
